@@ -31,11 +31,12 @@ def run(ctx):
     drv = leanlib.driver(ctx)
     htoy = cc.build_toy(ctx)
     hreal = cc.build_real(ctx)
-    if not drv or not htoy or not hreal:
-        return
     r = ctx.rng
     n = 150 if ctx.tier == "quick" else 1500
-    c01.two_pass(ctx, htoy, drv, "format-toy", K.enc_cases(r, n))
+    if drv and htoy:
+        c01.two_pass(ctx, htoy, drv, "format-toy", K.enc_cases(r, n))
+    if not hreal:               # (a harness that no longer builds is already a failed obligation; the real-primitive streams still run without the toy one)
+        return
     # ---- daemon -> reference
     macs = [m for m in (2, 3, 4, 5, 6) if R.have_mac(m)]
     ctx.cov["reference_macs"] = macs
